@@ -1,7 +1,7 @@
 """X03 - extension of the specification: `interpolate` (spec/Curve.tla) and `df_roll_off` (spec/Roll.tla).
 
 TLA+ decides; this driver renders the abstract cases, calls pyg_base and encodes what came back."""
-import json
+import json, os
 from harness.x_pool import pmap
 from harness import x_curve
 from harness.core import Machinery
@@ -479,7 +479,16 @@ def run(ctx):
                 'caller sessions (loads at moving clocks feeding back data and chain, truncations) generated by TLC, == on loader log, '
                 'live_check log, outcome, data and pinned roll dates; C2S = random chains with calendar holes / NaN / caller roll dates in '
                 'sessions through the code itself, judged by Trace_Roll.  Non-trivial = a finite interpolated value / >= 2 contracts loaded / >= 3 loads.')
-    # ---- X03-a
+    part = os.environ.get('VERIF_X03_PART', '')          # development aid: 'curve' or 'roll' runs one half only
+    if part != 'roll':
+        run_curve(ctx, q)
+    if part != 'curve':
+        run_roll(ctx, q)
+    ctx.exhaustive = False
+    ctx.assumptions += ASSUMPTIONS
+
+
+def run_curve(ctx, q):
     r = ctx.mc('MC_Curve', 'MC_Curve_quick.cfg' if q else 'MC_Curve_thorough.cfg', coverage=False)
     if r.generated != r.distinct or r.distinct % 2:
         raise Machinery('MC_Curve: not every case was evaluated (%d generated, %d distinct)' % (r.generated, r.distinct))
@@ -487,19 +496,32 @@ def run(ctx):
     curve_s2c(ctx, pts, limit=8000 if q else None)
     curve_s2c(ctx, ctx.generate('MC_Curve', 'MC_Curve_gen_forms.cfg' if q else 'MC_Curve_gen_forms_wide.cfg'), limit=2500 if q else None)
     curve_c2s(ctx, 2500 if q else 40000)
-    # ---- X03-b/c
+
+
+def _simulate(ctx, module, cfg, n, depth, seed):
+    """TLC -simulate with ONE worker whatever VERIF_TLC_WORKERS says: the traces must depend on the seed only"""
+    old = os.environ.pop('VERIF_TLC_WORKERS', None)
+    try:
+        return ctx.generate(module, cfg, simulate=n, depth=depth, seed=seed, workers=1)
+    finally:
+        if old is not None:
+            os.environ['VERIF_TLC_WORKERS'] = old
+
+
+def run_roll(ctx, q):
     ctx.mc('MC_RollCall', 'MC_RollCall_quick.cfg', coverage=False)
-    ctx.mc('MC_Roll', 'MC_Roll_quick.cfg' if q else 'MC_Roll_thorough.cfg', coverage=True if q else False)
+    r = ctx.mc('MC_Roll', 'MC_Roll_quick.cfg' if q else 'MC_Roll_thorough.cfg', coverage=False)
     # the reading of today's code (a contract whose data ends ON the cutoff counts as live) breaks the session law
     ctx.mc('MC_Roll', 'MC_Roll_today.cfg', must_fail='SavedIsFresh', coverage=False)
     roll_s2c_calls(ctx, ctx.generate('MC_RollCall', 'MC_RollCall_gen.cfg'))
     if not q:
         roll_s2c_calls(ctx, ctx.generate('MC_RollCall', 'MC_RollCall_gen_empty.cfg'))
-        roll_s2c_sessions(ctx, ctx.generate('MC_Roll', 'MC_Roll_gen3.cfg'))
-    roll_s2c_sessions(ctx, ctx.generate('MC_Roll', 'MC_Roll_gen.cfg', simulate=250 if q else 4000, depth=7, seed=ctx.seed + 1, workers=1))
+    roll_s2c_sessions(ctx, ctx.generate('MC_Roll', 'MC_Roll_gen3.cfg' if q else 'MC_Roll_gen4.cfg'))
+    roll_s2c_sessions(ctx, _simulate(ctx, 'MC_Roll', 'MC_Roll_gen.cfg', 25 if q else 1500, 7, ctx.seed + 1))
     roll_c2s(ctx, 500 if q else 8000)
-    ctx.exhaustive = False
-    ctx.assumptions += [
+
+
+ASSUMPTIONS = [
         'interpolate: floats cross the boundary exactly; the cases replayed lie in the domain FloatExact of spec/Curve.tla where scipy 1.x evaluates the chord without rounding (slope form for fill nan/bound, weight form for extrapolate)',
         'interpolate: knots are finite and distinct (increasing unless assume_sorted = False); frames of values have >= 2 knot columns; maturities given as dates (years_to_maturity) and dated knots on other dates than the values (xmethod) are not covered',
         'df_roll_off: the clock of the code is the wall clock (dt(0)); grid day k of a call with clock `now` is rendered as today + (k - now) days - a run across midnight between rendering and the call would be off by one',
